@@ -61,6 +61,14 @@ def conds_hold(conds, assign) -> Optional[bool]:
     res = True
     for c in conds:
         v = eval_enum_cond(c[0], assign)
+        if v is None and len(c) > 2 and c[2]:
+            # the test may go through local aliases (`enduse = model.surfaceplant.enduse_option.value`): expand them with the
+            # definitions that were current when the test was taken
+            try:
+                from .symflow import expand
+                v = eval_enum_cond(expand(c[0], c[2], only=lambda k: '.' not in k), assign)
+            except Exception:
+                v = None
         if v is None:
             res = None if res is not False else False
             continue
